@@ -6,8 +6,8 @@
 
 def cfg(pocca=0, pocma=0, pocs=0, ae=0, size_t="std::size_t", max_size=0, soccc=0, cm=0, hint=0):
     b = lambda x: "true" if x else "false"
-    return "sim::alloc_cfg<%s, %s, %s, %s, %s, %dul, %s, %s, %s>" % (
-        b(pocca), b(pocma), b(pocs), b(ae), size_t, max_size, b(soccc), b(cm), b(hint))
+    return "sim::alloc_cfg<%s, %s, %s, %s, %s, %dul, %s, %d, %s>" % (
+        b(pocca), b(pocma), b(pocs), b(ae), size_t, max_size, b(soccc), int(cm), b(hint))
 
 
 def U(name, elem, alloc, ns, big=False, packs=()):
@@ -75,6 +75,15 @@ add("alloc_MO_010", MO, sim_alloc(MO, cfg(0, 1, 0)), NSETS[5], packs=("alloc",))
 add("alloc_NM_cm", NM, sim_alloc(NM, cfg(cm=1)), NSETS[0], packs=("alloc", "twin"))
 add("alloc_NC_cm", NC, sim_alloc(NC, cfg(cm=1)), NSETS[2], packs=("alloc",))
 add("alloc_TM_cm", TM, sim_alloc(TM, cfg(0, 1, 0, cm=1)), NSETS[5], packs=("alloc",))
+add("alloc_MO_cm", MO, sim_alloc(MO, cfg(0, 1, 1, cm=1)), NSETS[1], packs=("alloc",))
+add("alloc_CO_cm", CO, sim_alloc(CO, cfg(1, 0, 0, cm=1, soccc=1)), NSETS[3], packs=("alloc",))
+add("alloc_MA_cm_ae", MA, sim_alloc(MA, cfg(0, 0, 0, ae=1, cm=1)), NSETS[4], packs=("alloc",))
+# trivially copyable / trivially destructible elements behind an allocator with construct/destroy
+# members (no memcpy shortcut may bypass them; destroy() must still be called for every element),
+# and C++03-style allocators: construct (p, const T&) + destroy (p) only
+add("alloc_TC_cm", TC, sim_alloc(TC, cfg(cm=1)), NSETS[0], packs=("alloc", "twin"))
+add("alloc_TC_legacy", TC, sim_alloc(TC, cfg(0, 1, 0, cm=2)), NSETS[2], packs=("alloc", "twin"))
+add("alloc_NC_legacy", NC, sim_alloc(NC, cfg(1, 0, 1, cm=2)), NSETS[5], packs=("alloc",))
 add("alloc_NM_hint", NM, sim_alloc(NM, cfg(pocma=1, hint=1)), NSETS[4], packs=("alloc",))
 add("alloc_CO_101", CO, sim_alloc(CO, cfg(1, 0, 1)), NSETS[1], packs=("alloc",))
 add("alloc_MN_011", MN, sim_alloc(MN, cfg(0, 1, 1, soccc=1)), NSETS[2], packs=("alloc",))
@@ -103,7 +112,7 @@ add("twin_TC_u16", TC, sim_alloc(TC, cfg(size_t="std::uint16_t")), NSETS[3], pac
 add("twin_NM_u16", NM, sim_alloc(NM, cfg(size_t="std::uint16_t")), NSETS[3], packs=("core",))
 
 # (trivially copyable universe, its non-trivial twin): identical N sets and allocator configuration
-TWINS = [("twin_TC", "core_NM"), ("twin_TC_std", "std_NM"), ("twin_TC_111", "twin_NM_111"),
+TWINS = [("alloc_TC_cm", "alloc_NM_cm"), ("twin_TC", "core_NM"), ("twin_TC_std", "std_NM"), ("twin_TC_111", "twin_NM_111"),
          ("twin_TC_u16", "twin_NM_u16")]
 
 
